@@ -386,6 +386,8 @@ def main():
     units = [u for u in cfg["units"] if (not only_unit or u["name"] == only_unit or u["name"] + "." in (only_unit + "."))]
     units = [u for u in units if tier in u.get("tiers", ["quick", "thorough"])]
     inconclusive = []
+    wallclock_cases = {}
+    notes = []
     violations = []  # dicts key, what, replay, unit
     built = {}
     buildlog = {}
@@ -458,9 +460,23 @@ def main():
             for v in d.get("violations", []):
                 violations.append({"key": v["key"], "what": v["what"], "replay": v["replay"], "unit": ku, "count": v.get("count", 1)})
             for w in d.get("inconclusive", []):
-                inconclusive.append("unit %s: %s" % (ku, w))
+                if ku in cfg.get("wallclock_units", []):
+                    # real sockets / real time: a single case that did not settle within its polling bound on a loaded
+                    # machine is reported, kept in the evidence, and only makes the run inconclusive when it is not rare
+                    wallclock_cases.setdefault(ku, []).append(w)
+                else:
+                    inconclusive.append("unit %s: %s" % (ku, w))
         merged["units"].append({"unit": ku, "evaluations": ev, "distinct_nontrivial": dn, "shards": len(lst),
                                 "wall_s": round(max(d.get("wall_s", 0) for _, d in lst), 2)})
+
+    for ku, ws in wallclock_cases.items():
+        evs = sum(u["evaluations"] for u in merged["units"] if u["unit"] == ku)
+        if len(ws) > max(1, evs // 20):
+            for w in ws:
+                inconclusive.append("unit %s: %s" % (ku, w))
+        else:
+            for w in ws:
+                notes.append("unit %s (wall-clock unit, %d of %d cases): %s" % (ku, len(ws), evs, w))
 
     # children that died / never wrote results; race logs
     for r in results:
@@ -553,6 +569,7 @@ def main():
         "sanitizers": sorted(set(x for u in units for x in ((["race+checkptr"] if u.get("race") else []) + (["asan"] if u.get("asan") else [])))),
         "build": buildlog,
         "inconclusive": inconclusive,
+        "inconclusive_cases_in_wallclock_units": notes,
         "known_findings_observed": [k["key"] for k, _ in kf],
         "violation_keys": [v["key"] for v in real],
         "repo": REPO,
@@ -576,6 +593,8 @@ def main():
         log("  key=%s unit=%s count=%s: %s" % (v["key"], v["unit"], v["count"], v["what"]))
     for w in inconclusive:
         log("INCONCLUSIVE property=%s %s" % (pid, w))
+    for w in notes:
+        log("NOTE property=%s inconclusive case, not counted: %s" % (pid, w))
     log("%s property=%s tier=%s seed=%d evaluations=%d distinct=%d units=%d wall=%.1fs" % (
         "VIOLATED" if real else ("INCONCLUSIVE-RUN" if inconclusive else "HELD"), pid, tier, seed,
         merged["evaluations"], merged["distinct"], len(merged["units"]), wall))
